@@ -464,8 +464,10 @@ func call(i *interpreter, caller *frame, callpos token.Pos, fn value, args []val
 		return callSSA(i, caller, callpos, fn.Fn, args, fn.Env)
 	case *ssa.Builtin:
 		return callBuiltin(caller, callpos, fn, args)
+	case *nativeFn:
+		return fn.fn(&frame{i: i, caller: caller}, args)
 	}
-	panic(fmt.Sprintf("cannot call %T", fn))
+	panic(unsupported{fmt.Sprintf("cannot call %T", fn)})
 }
 
 func loc(fset *token.FileSet, pos token.Pos) string {
